@@ -62,7 +62,7 @@ def createCond (a : CreateArgs R) : M R Unit := do
 
 /-- the message of one instance; a failed instance is noted for the rollback -/
 def instMsg (n : String) (id : Nat) (r : R) (ok : Bool) : M R Unit :=
-  if ok then emit ⟨n, id, true⟩ else do noteFailed n r; emit ⟨n, 0, false⟩
+  if ok then emit ⟨n, id, true, some r⟩ else do noteFailed n r; emit ⟨n, 0, false, none⟩
 
 /-- instances of one node, in index order -/
 def deployInsts (n : String) : List R → M R Unit
@@ -77,7 +77,7 @@ def deployInsts (n : String) : List R → M R Unit
 def deployNode (n : String) (rs : List R) : M R Unit := do
   let ok ← attempt (readStep "storeGetNode" n)       -- doGetAndPrepareNode
   if ok then deployInsts n rs
-  else forEach rs (fun r => do noteFailed n r; emit ⟨"", 0, false⟩)   -- anonymous failure messages
+  else forEach rs (fun r => do noteFailed n r; emit ⟨"", 0, false, none⟩)   -- anonymous failure messages
 
 /-- then step: `doDeployWorkloads`; fails iff some instance failed -/
 def createThen (a : CreateArgs R) : M R Unit := do
@@ -104,7 +104,7 @@ def createRollback (a : CreateArgs R) (byCond : Bool) : M R Unit := do
 /-- `utils.Txn(cond, then, rollback)` of `doCreateWorkloads`; a failing condition step sends the
 single error message -/
 def createTxn (a : CreateArgs R) : M R Unit :=
-  txn (withFailMsg (createCond a) ⟨"", 0, false⟩) (createThen a) (some (createRollback a))
+  txn (withFailMsg (createCond a) ⟨"", 0, false, none⟩) (createThen a) (some (createRollback a))
 
 /-- deferred: commit the create-processing events that were logged -/
 def commitProcessing (a : CreateArgs R) : M R Unit := do
